@@ -275,6 +275,30 @@ pub fn migrate_step(
                 if let Ok(after) = book::read_cfg(&sim.chain.storage) {
                     let o = msg.as_object().cloned().unwrap_or_default();
                     let gs = |k: &str| o.get(k).and_then(|v| v.as_str()).map(|x| x.to_string());
+                    let gl = |k: &str| -> Option<Vec<String>> {
+                        o.get(k).and_then(|v| v.as_array()).map(|a| a.iter().filter_map(|e| e.as_str().map(|x| x.to_string())).collect())
+                    };
+                    // the lists: omitted ones keep their value, supplied ones are installed exactly as
+                    // written (a list that was quietly filtered, or ignored, is not what was requested)
+                    for (field, pre, post) in [
+                        ("approvers", &cfg_pre.approvers, &after.approvers),
+                        ("ask_required_attributes", &cfg_pre.ask_attrs, &after.ask_attrs),
+                        ("bid_required_attributes", &cfg_pre.bid_attrs, &after.bid_attrs),
+                    ] {
+                        let ok = match gl(field) {
+                            None => post == pre,
+                            Some(req) => *post == req,
+                        };
+                        if !ok {
+                            sim.flag(
+                                &["C14"],
+                                "C14.config_overrides",
+                                kind,
+                                "invalid_override",
+                                format!("{} after migration is {:?}; before {:?}, requested {:?}", field, post, pre, gl(field)),
+                            );
+                        }
+                    }
                     for (side, pre, post) in [("ask", &cfg_pre.ask_fee, &after.ask_fee), ("bid", &cfg_pre.bid_fee, &after.bid_fee)] {
                         let rate = gs(&format!("{}_fee_rate", side));
                         let acct = gs(&format!("{}_fee_account", side));
